@@ -121,8 +121,10 @@ def addtoset_clause(update):
     return None
 
 
-def apply(doc, update, on_insert=False):
-    """expected document after applying an operator update (never a replacement)"""
+def apply(doc, update, on_insert=False, filt=None):
+    """expected document after applying an operator update (never a replacement); with `filt`
+    (the query that selected `doc`) a positional `$` in a path is resolved by the rule of the
+    positional operator (`resolve_positional`), otherwise such a path is declined"""
     d = copy.deepcopy(doc)
     if not isinstance(update, dict) or not update:
         raise Unknown('not an operator update')
@@ -131,6 +133,8 @@ def apply(doc, update, on_insert=False):
         if not isinstance(body, dict):
             raise Unknown('malformed')
         for path, arg in body.items():
+            if '$' in path and filt is not None and isinstance(path, str):
+                path = resolve_positional(doc, op, path, arg, filt, on_insert)
             if '$' in path or path == '' or '..' in path or path.startswith('.') or path.endswith('.'):
                 raise Unknown('positional / odd path')
             parts = path.split('.')
@@ -296,3 +300,208 @@ def same_doc(a, b):
     if type(a) != type(b):
         return False
     return a == b
+
+
+# ---------------------------------------------------------------------------------------------
+# the positional operator `$` (MongoDB manual, "$ (update)"): the `$` of a path `f.$…` stands for
+# the index of the FIRST element of the array `f` that satisfies the query's condition on `f`;
+# a query without a condition on `f`, or one no element satisfies, makes the update an error, and
+# so does a positional path on an upsert.  Written independently of mongomock and of the Lean
+# model; whatever the manual leaves open (several conditions on one array outside `$elemMatch`,
+# conditions inside `$and`/`$or`, negations, nested arrays, `$[]`) is declined (`Unknown`).
+
+class RuleError(Exception):
+    """the rule makes the update an error (no verdict on which error)"""
+
+
+_ORDER_OPS = {'$gt': lambda a, b: a > b, '$gte': lambda a, b: a >= b,
+              '$lt': lambda a, b: a < b, '$lte': lambda a, b: a <= b}
+_MISSING = object()
+
+
+def _same_class(a, b):
+    return (is_num(a) and is_num(b)) or (isinstance(a, str) and isinstance(b, str))
+
+
+def value_satisfies(v, cond):
+    """a value (never an array, never missing) against a condition: a scalar to equal, or a
+    document of $eq/$gt/$gte/$lt/$lte/$in over scalars"""
+    if isinstance(v, (list, dict)) or v is _MISSING:
+        raise Unknown('condition on a container / missing value')
+    if isinstance(cond, dict):
+        if not cond or not all(str(k).startswith('$') for k in cond):
+            raise Unknown('sub-document equality')
+        for k, arg in cond.items():
+            if k == '$eq':
+                if isinstance(arg, (list, dict)) or not eq(v, arg):
+                    if isinstance(arg, (list, dict)):
+                        raise Unknown('container operand')
+                    return False
+            elif k in _ORDER_OPS:
+                if isinstance(arg, (list, dict, bool)) or arg is None or isinstance(v, bool) \
+                        or v is None:
+                    raise Unknown('ordering of odd values')
+                if not _same_class(v, arg) or not _ORDER_OPS[k](v, arg):
+                    return False
+            elif k == '$in':
+                if not isinstance(arg, list) or any(isinstance(x, (list, dict)) for x in arg):
+                    raise Unknown('$in operand')
+                if not in_list(v, arg):
+                    return False
+            else:
+                raise Unknown('operator ' + str(k))
+        return True
+    if isinstance(cond, list):
+        raise Unknown('array operand')
+    return eq(v, cond)
+
+
+def element_matches(el, query):
+    """an element of the array against a query over its fields `{k: cond, …}`"""
+    if not isinstance(el, dict) or not isinstance(query, dict):
+        raise Unknown('element / query that is no document')
+    for k, cond in query.items():
+        if str(k).startswith('$') or '.' in str(k):
+            raise Unknown('operator or dotted key in the element query')
+        if not value_satisfies(el.get(k, _MISSING), cond):
+            return False
+    return True
+
+
+def positional_index(doc, f, filt):
+    """the index `$` stands for in a path through the array `doc[f]` under the query `filt`;
+    raises RuleError when the rule makes the update an error"""
+    if not isinstance(filt, dict) or any(str(k).startswith('$') for k in filt):
+        raise Unknown('logical operators in the query')
+    arr = doc.get(f, _MISSING) if isinstance(doc, dict) else _MISSING
+    if not isinstance(arr, list):
+        raise Unknown('no array under the field')
+    conds = [(k, c) for k, c in filt.items() if k == f or str(k).startswith(f + '.')]
+    if not conds:
+        raise RuleError('the query does not constrain the array')
+    if len(conds) > 1:
+        raise Unknown('several conditions on the array')
+    k, c = conds[0]
+    if isinstance(c, dict) and any(x in c for x in ('$ne', '$nin', '$not', '$nor')):
+        raise Unknown('negation')
+    if k == f:
+        if isinstance(c, dict) and '$elemMatch' in c:
+            if len(c) != 1 or not isinstance(c['$elemMatch'], dict):
+                raise Unknown('$elemMatch next to other operators')
+            q = c['$elemMatch']
+            if q and all(str(x).startswith('$') for x in q):
+                test = lambda el: value_satisfies(el, q)
+            else:
+                test = lambda el: element_matches(el, q)
+        else:
+            test = lambda el: value_satisfies(el, c)
+    else:
+        rest = k[len(f) + 1:]
+        if '.' in rest or rest.isdigit() or rest.startswith('$') or rest == '':
+            raise Unknown('deeper path in the condition')
+        test = lambda el: element_matches(el, {rest: c})
+    for i, el in enumerate(arr):
+        if test(el):
+            return i
+    raise RuleError('no element satisfies the condition')
+
+
+def resolve_positional(doc, op, path, arg, filt, on_insert):
+    """the path with `$` replaced by the index the rule gives (resolved on the document as the
+    query matched it)"""
+    parts = path.split('.')
+    if parts.count('$') != 1 or parts[0] == '$' or len(parts) < 2 or '' in parts or \
+            any('$' in p and p != '$' for p in parts):
+        raise Unknown('odd positional path')
+    if parts.index('$') != 1:
+        raise Unknown('positional operator below the top-level field')
+    if op == '$rename':
+        raise Unknown('$rename')
+    if on_insert:
+        raise RuleError('a positional path on an upsert')
+    i = positional_index(doc, parts[0], filt)
+    el = doc[parts[0]][i]
+    if len(parts) == 2:
+        # the element itself is the target
+        if op == '$inc' and not is_num(el):
+            raise RuleError('$inc of an element that is no number')
+        if op == '$pop' and not isinstance(el, list):
+            raise RuleError('$pop of an element that is no array')
+        if op in ('$push', '$addToSet', '$pull', '$pullAll') and not isinstance(el, list):
+            raise RuleError('array operator on an element that is no array')
+        if op == '$unset':
+            raise Unknown('$unset of an element (stores null)')
+        if op in ('$min', '$max') and not (is_num(el) or isinstance(el, str)):
+            raise Unknown('$min/$max of a container')
+    else:
+        if not isinstance(el, dict):
+            raise RuleError('a field of an element that is no document')
+        if op in ('$pop', '$pull', '$pullAll') and get_at(el, parts[2:])[0] == 'missing':
+            raise Unknown('array operator on a missing field')
+    return '.'.join([parts[0], str(i)] + parts[2:])
+
+
+def positional_paths(update):
+    """[(operator, path)] of the paths of an update that hold a `$`"""
+    out = []
+    if isinstance(update, dict):
+        for op, body in update.items():
+            if isinstance(body, dict):
+                out.extend((op, p) for p in body if isinstance(p, str) and '$' in p)
+    return out
+
+
+def positional_class(op_name, filt, update, on_insert):
+    """the known deviation class (Spec/UpdatePositional.lean) a positional update falls in, if
+    any — the first that applies"""
+    pp = positional_paths(update)
+    if not pp:
+        return None
+    if on_insert:
+        return 'positional-upsert'
+    if op_name == 'find_one_and_update':
+        return 'positional-fam-filter-lost'
+    fields = [p.split('.')[0] for _, p in pp]
+    keys = [str(k) for k in filt] if isinstance(filt, dict) else []
+    for f in fields:
+        if any(k.startswith(f) and k != f and not k.startswith(f + '.') for k in keys):
+            return 'positional-prefix-key'
+    for f in fields:
+        if not any(k == f or k.startswith(f + '.') for k in keys):
+            return 'positional-unconstrained'
+    for f in fields:
+        c = filt.get(f, _MISSING)
+        if c is not _MISSING:
+            q = c.get('$elemMatch') if isinstance(c, dict) else None
+            if not (isinstance(q, dict) and q and not all(str(x).startswith('$') for x in q)):
+                return 'positional-value-condition'
+    entries = [(op, p) for op, body in update.items() if isinstance(body, dict) for p in body]
+    first_pos = min(i for i, (op, p) in enumerate(entries) if '$' in p)
+    last_pos = max(i for i, (op, p) in enumerate(entries) if '$' in p)
+    for op, body in update.items():
+        if isinstance(body, dict):
+            ks = list(body)
+            if any(str(p).endswith('.$') for p in ks[:-1]):
+                # `f.$` followed by further keys in the SAME operator document: the code's loop
+                # variable `doc` now names the array element, the later keys are applied to it
+                return 'positional-doc-rebound'
+    if any('$' not in p and str(p).split('.')[0] in fields for op, p in entries[:last_pos]):
+        # an earlier operator of the same update wrote under the array: the code looks for the
+        # element on the document as that operator left it
+        return 'positional-reevaluated'
+    if len(pp) > 1 or any(op == '$push' or (op in ('$addToSet', '$pullAll') and '.' in p)
+                          for op, p in entries[:first_pos]):
+        return 'positional-carried-container'
+    op, p = pp[0]
+    parts = p.split('.')
+    if parts[-1] == '$' and op != '$set':
+        return 'positional-whole-element-op'
+    if op in ('$push', '$addToSet', '$pull', '$pullAll'):
+        f = parts[0]
+        if not (isinstance(filt.get(f), dict) and '$elemMatch' in filt[f]):
+            return 'positional-needs-elemmatch'
+        if op == '$pull':
+            return 'positional-pull'
+    if len(parts) > 3:
+        return 'positional-missing-intermediate'
+    return None
